@@ -59,7 +59,8 @@ func NewDB(r *rand.Rand, o GenOpts) *DB {
 		if o.Numeric {
 			s.Labels["num"] = []string{"0", "1", "2", "5", "10", "2.5", "-3", "7"}[r.Intn(8)]
 		} else if r.Intn(3) == 0 {
-			s.Labels["num"] = []string{"0", "1", "2", "5", "10", "2.5", "-3", "abc", "7"}[r.Intn(9)]
+			// a label that usually holds a number and sometimes what producers write when they have none
+			s.Labels["num"] = []string{"0", "1", "2", "5", "10", "2.5", "-3", "7", "abc", "-", "12ms", "N/A"}[r.Intn(12)]
 		}
 		// the label set must be unique
 		key := CanonLabels(s.Labels)
